@@ -177,6 +177,16 @@ inline int engine_main(int argc, char** argv, Engine& eng) {
     Result r = eng.execute(p, stats);
     Stats s2;
     Result r2 = eng.execute(p, s2);
+    if (!r.violation && r2.violation) {
+      // The very first execution in a process runs one-time initialisations (function-local statics,
+      // locale, allocator arenas) whose guards are synchronisation in ThreadSanitizer's eyes and can
+      // order two otherwise racing threads. A batch worker found the violation in a warm process, so
+      // the warm execution is the faithful replay; it must then reproduce once more.
+      Stats s3;
+      Result r3 = eng.execute(p, s3);
+      r = r2;
+      r2 = r3;
+    }
     for (auto& n : r.notes) printf("NOTE %s\n", n.c_str());
     if (r.violation) printf("DETAIL %s\n", r.detail.c_str());
     printf("RESULT verdict=%s class=%s sig=%s hash=%016llx stable=%d\n",
